@@ -734,3 +734,66 @@ def panic_sites(body):
             elif any(INDEX_CALL_RX.search(n) for n in names) or (t.get('fa') and re.search(r'as std::ops::Index(Mut)?<', t['fa'])):
                 res.append({'kind': 'call:index', 'what': (t.get('fa') or nm), 'block': bi, 'loc': body.loc(bi), 'mx': mx})
     return res
+
+
+# ----------------------------------------------------------------------------- K7 auto-discharge
+
+def _const_range(body, op):
+    """if operand is a Range-like aggregate with constant bounds return (kind, start, end)"""
+    l = op_local(op)
+    if l is None:
+        return None
+    ds = [d for d in body.defs().get(l, []) if d[2] == 'assign']
+    if len(ds) != 1:
+        return None
+    r = ds[0][3]['r']
+    if r['k'] == 'use' and op_local(r['a'][0]) is not None and len(op_place(r['a'][0])) == 1:
+        return _const_range(body, r['a'][0])
+    if r['k'] != 'agg' or 'Range' not in r['ak']:
+        return None
+    kind = r['ak'].split('::')[-1]
+    vals = [a.get('i') for a in r['a']]
+    return (kind, vals)
+
+
+def panic_site_autodischarge(body, site):
+    """returns a reason string if the panic-capable construct at `site` is safe by local reasoning."""
+    t = body.term(site['block'])
+    if site['kind'] == 'call:index':
+        fa = t.get('fa') or ''
+        m = re.search(r'<(?:table::Entry<)?\[([a-z0-9]+); (\d+)\]>? as std::ops::Index(?:Mut)?<std::ops::(Range\w*)', fa)
+        if m:
+            n = int(m.group(2))
+            if m.group(3) == 'RangeFull':
+                return 'RangeFull index of a fixed-size array'
+            cr = _const_range(body, t['a'][1]) if len(t['a']) > 1 else None
+            if cr and all(v is not None for v in cr[1]):
+                kind, vals = cr
+                if kind == 'Range' and vals[0] <= vals[1] <= n:
+                    return 'constant range %d..%d within array of %d' % (vals[0], vals[1], n)
+                if kind == 'RangeFrom' and vals[0] <= n:
+                    return 'constant range %d.. within array of %d' % (vals[0], n)
+                if kind == 'RangeTo' and vals[0] <= n:
+                    return 'constant range ..%d within array of %d' % (vals[0], n)
+        return None
+    if site['kind'] == 'call:unwrap':
+        fa = t.get('fa') or ''
+        m = re.search(r'Result::<\[u8; (\d+)\], std::array::TryFromSliceError>::(unwrap|expect)$', fa)
+        if m:
+            n = int(m.group(1))
+            # operand derives from try_into of an index with constant range of exactly n bytes
+            sl = backward_slice(body, [op_place(t['a'][0])]) if op_place(t['a'][0]) else None
+            if sl:
+                for (bi, ct) in sl.call_sites:
+                    if re.search(r'Index(Mut)?<std::ops::Range', ct.get('fa') or '') and len(ct['a']) > 1:
+                        cr = _const_range(body, ct['a'][1])
+                        if cr and all(v is not None for v in cr[1]):
+                            kind, vals = cr
+                            if kind == 'Range' and vals[1] - vals[0] == n:
+                                return 'try_into of a constant %d-byte range into [u8; %d]' % (n, n)
+                            if kind == 'RangeFrom':
+                                mm = re.search(r'<\[u8; (\d+)\] as', ct.get('fa') or '')
+                                if mm and int(mm.group(1)) - vals[0] == n:
+                                    return 'try_into of a constant tail of %d bytes into [u8; %d]' % (n, n)
+        return None
+    return None
